@@ -80,7 +80,7 @@ def enc_case(dictc, ops):
             out.append([5])
         elif k == "pandas":
             out.append([6])
-        elif k == "peek":
+        elif k in ("peek", "baddescribe"):
             out.append([7])
     return [S(dictc), out]
 
@@ -122,6 +122,13 @@ def run_impl(conn, dictc, ops):
                 obs.append([5, core.opt(cur.rowcount)])
             elif k == "pandas":
                 obs.append([5, [len(cur.fetch_pandas_all())]])
+            elif k == "baddescribe":
+                # describe() of a statement that cannot be described fails - and must leave the cursor exactly as it was (an observer too)
+                try:
+                    cur.describe("select * from c05_missing_table")
+                except Exception:  # noqa: BLE001
+                    pass
+                obs.append([4])
             elif k == "peek":
                 # observers: they may answer anything, but must not move the cursor (Props_C05.peek_erasure)
                 _ = (cur.description, cur.sqlstate, cur.sfqid, cur.rowcount, cur.arraysize)
@@ -150,6 +157,8 @@ def oracle(dictc, ops, obs):
             continue
         if k == "asz":
             asz = o[1]
+            continue
+        if k == "baddescribe":
             continue
         if k == "peek":
             if ob != [4] and rows is not None:          # (before the first execute there is nothing to describe: outside the property)
@@ -241,8 +250,10 @@ def gen_case(rng):
             ops.append(("pandas",))
         elif x < 0.96:
             ops.append(shape())
-        else:
+        elif x < 0.985:
             ops.append(("peek",))
+        else:
+            ops.append(("baddescribe",))
     return rng.random() < 0.4, ops
 
 
@@ -270,6 +281,8 @@ def main():
     for seq in itertools.product([("one",), ("many", 2), ("all",), ("peek",)], repeat=4):
         if ("peek",) in seq:
             cases.append((len(cases) % 2 == 0, [("exec", ["int"], ["A"], [[0], [1], [2]]), *seq]))
+    for d_ in (False, True):
+        cases.append((d_, [("baddescribe",), ("exec", ["int", "str"], ["A", "B"], [[0, 1], [1, 0]]), ("one",), ("baddescribe",), ("all",), ("exec", ["int"], ["A"], [[2]]), ("all",)]))
     # corpus: the F2 witness
     cases.insert(0, (False, [("exec", ["int", "int"], ["A", "A"], [[1, 2]]), ("all",)]))
     for d in (False, True):
